@@ -323,3 +323,52 @@ pub fn corpus(pick: u32, large: bool) -> Vec<(DS, String, Known)> {
     }
     out
 }
+
+
+/// One cube whose opposite faces are glued by translation composed with a rotation by twist * 90
+/// degrees about the axis (twists per axis in 0..4): 64 D-sets with 48 chambers that share the tile
+/// structure (operations 0, 1, 2 and the numbering are identical) and differ only in the gluing
+/// (operation 3). Those that are manifolds include the 3-torus (0,0,0), the quarter-turn and half-turn
+/// flat manifolds and spherical space forms such as the quaternion space (1,1,1).
+pub fn cube_gluing(twist: [usize; 3]) -> DS {
+    let perms: [[usize; 3]; 6] = [[0, 1, 2], [0, 2, 1], [1, 0, 2], [1, 2, 0], [2, 0, 1], [2, 1, 0]];
+    let id = |x: [usize; 3], p: [usize; 3]| -> usize { 1 + (x[0] + 2 * x[1] + 4 * x[2]) * 6 + perms.iter().position(|q| *q == p).unwrap() };
+    let mut ds = DS::new(3, 48);
+    for xb in 0..8usize {
+        let x = [xb & 1, (xb >> 1) & 1, (xb >> 2) & 1];
+        for p in perms {
+            let d = id(x, p);
+            let mut x0 = x;
+            x0[p[0]] ^= 1;
+            ds.op[0][d] = id(x0, p);
+            ds.op[1][d] = id(x, [p[1], p[0], p[2]]);
+            ds.op[2][d] = id(x, [p[0], p[2], p[1]]);
+            // the face: axis a = p[2], side x[a]; the other axes b < c
+            let a = p[2];
+            let (b, c) = match a { 0 => (1, 2), 1 => (0, 2), _ => (0, 1) };
+            // side 0 -> side 1 with rho^t, side 1 -> side 0 with rho^-t, rho (u, v) = (1 - v, u)
+            let t = if x[a] == 0 { twist[a] % 4 } else { (4 - twist[a] % 4) % 4 };
+            let (mut u, mut v) = (x[b], x[c]);
+            let mut q = p;
+            for _ in 0..t {
+                let (nu, nv) = (1 - v, u);
+                u = nu;
+                v = nv;
+                for k in 0..2 {
+                    q[k] = if q[k] == b { c } else { b };
+                }
+            }
+            let mut y = x;
+            y[a] = 1 - x[a];
+            y[b] = u;
+            y[c] = v;
+            ds.op[3][d] = id(y, q);
+        }
+    }
+    for i in 0..3 {
+        for d in 1..=48 {
+            ds.v[i][d] = 1;
+        }
+    }
+    ds
+}
